@@ -273,7 +273,7 @@ pub fn lj_shapes() -> Vec<ShapeSpec> {
 }
 
 /// Run a chain of stages on a real state; `reqs[k]` is stage k.
-fn chain<S: State + 'static>(desc: &str, gname: &str, state: S, reqs: &[Req], out: &mut Vec<Run>) {
+pub fn chain<S: State + 'static>(desc: &str, gname: &str, state: S, reqs: &[Req], out: &mut Vec<Run>) {
     let fam = family_of(gname);
     let mut cur = Some(state);
     for (k, req) in reqs.iter().enumerate() {
